@@ -20,10 +20,10 @@ Init ==
 \* one iteration: residuals n x k, convergence test gives the new active block size, Rayleigh-Ritz of order k + b (+ b with directions)
 Iterate ==
     /\ pc = "loop" /\ iter < MaxIt
-    /\ \E nb \in 0 .. b :
+    /\ \E nb \in 0 .. k :
           IF nb = 0
           THEN pc' = "done" /\ info' = "Success" /\ UNCHANGED <<b, iter, X, coef, resid>>
-          ELSE /\ L_BlockOK(b, nb)
+          ELSE /\ L_BlockOK(k, nb)
                /\ b' = nb /\ iter' = iter + 1
                /\ coef' = L_Coef(k, iter, nb)
                /\ X' = Mul(<<n, k>>, <<k, k>>)                 \* X * eVecX (+ R eVecR + D eVecD, all n x k)
